@@ -198,6 +198,23 @@ Proof.
   destruct (classify dt); dres; discriminate.
 Qed.
 
+Lemma assert_consistency_total : forall ds, total (assert_consistency ds).
+Proof.
+  induction ds as [|(g, l) t IH]; simpl; [split; discriminate|].
+  assert (Hq : total (quads_consistent g l)).
+  { induction l as [|q l IHl]; simpl; [split; discriminate|].
+    assert (Hq1 : total (quad_consistent g q)).
+    { unfold quad_consistent.
+      repeat first [ solve [split; discriminate]
+                   | match goal with |- context [match ?x with _ => _ end] => destruct x; simpl end ]. }
+    destruct Hq1 as (A1 & A2).
+    destruct (quad_consistent g q) eqn:E; simpl; try (split; discriminate);
+      [assumption|exfalso; eapply A2; eauto|congruence]. }
+  destruct Hq as (A1 & A2).
+  destruct (quads_consistent g l) eqn:E; simpl; try (split; discriminate);
+    [assumption|exfalso; eapply A2; eauto|congruence].
+Qed.
+
 Section Entries.
   Variable F : floats.
   Variable prime : Z.
@@ -254,20 +271,7 @@ Section Entries.
   Theorem entries_total : forall ds, total_mod_convert (entries_from_rdf F prime ds).
   Proof.
     intros ds. unfold entries_from_rdf.
-    assert (Hc : total (assert_consistency ds)).
-    { induction ds as [|(g, l) t IH]; simpl; [split; discriminate|].
-      assert (Hq : total (quads_consistent g l)).
-      { induction l as [|q l IHl]; simpl; [split; discriminate|].
-        assert (Hq1 : total (quad_consistent g q)).
-        { unfold quad_consistent.
-          repeat first [ solve [split; discriminate]
-                       | match goal with |- context [match ?x with _ => _ end] => destruct x; simpl end ]. }
-        destruct Hq1 as (A1 & A2).
-        destruct (quad_consistent g q) eqn:E; simpl; try (split; discriminate);
-          [assumption|exfalso; eapply A2; eauto|congruence]. }
-      destruct Hq as (A1 & A2).
-      destruct (quads_consistent g l) eqn:E; simpl; try (split; discriminate);
-        [assumption|exfalso; eapply A2; eauto|congruence]. }
+    assert (Hc : total (assert_consistency ds)) by apply assert_consistency_total.
     destruct Hc as (C1 & C2).
     destruct (assert_consistency ds) eqn:E; simpl;
       try (split; [discriminate|intros w' H'; discriminate]);
